@@ -137,19 +137,36 @@ def do_dsend(main, addr, c):
     from sc3.synth.ugens.inout import Out
     from sc3.synth.server import Server
     from sc3.base.platform import Platform
+    import tempfile
     if not _sdef:
-        _sdef.append(SynthDef('verifc06', lambda: Out.ar(0, SinOsc.ar())))
-    sd = _sdef[0]
-    sd._bytes = bytes(c['n'])
-    cm = None if c['cm']['t'] == 'N' else oscrt.realise(c['cm'])
+        sd0 = SynthDef('verifc06', lambda: Out.ar(0, SinOsc.ar()))
+        _sdef.append(sd0)
+        _sdef.append(bytes(sd0.as_bytes()))
+    sd, real = _sdef
+    # a definition of exactly n bytes: the real one followed by padding (readers stop after the definition)
+    sd._bytes = real + bytes(max(0, c['n'] - len(real)))
+    cm = oscrt.realise(c['cm'])       # None, list, or a function of the server
+    site = c.get('site', 'do_send')
     sent = capture(main)
     server = Server.default
     res = {'cmd': 'none', 'len': 0}
     try:
-        sd._do_send(server, cm)
+        if site == 'do_send':
+            sd._do_send(server, cm(server) if callable(cm) else cm)     # its callers resolve functions
+        elif site == 'send':
+            sd.send(server, cm)
+        elif site == 'add':
+            sd.add('default', cm)
+        elif site == 'store':
+            with tempfile.TemporaryDirectory() as d:
+                sd.store('default', d, cm)
+        else:
+            raise AssertionError(site)
         if sent:
             d = sent[0]
             res = {'cmd': d[:d.find(b'\0')].decode('latin-1'), 'len': len(d)}
+    except AssertionError:
+        raise
     except Exception as e:
         res = {'cmd': 'raise:' + exc_name(e), 'len': 0}
     del main._osc_interface._send
@@ -157,7 +174,7 @@ def do_dsend(main, addr, c):
         (Platform.tmp_dir / 'verifc06.scsyndef').unlink()
     except OSError:
         pass
-    return {'id': c['id'], 'kind': 'dsend', 'n': c['n'], 'cm': oscrt.normalise(c['cm']), 'out': res}
+    return {'id': c['id'], 'kind': 'dsend', 'site': site, 'n': len(sd._bytes), 'cm': oscrt.normalise(c['cm']), 'out': res}
 
 
 def main_():
